@@ -1475,4 +1475,6 @@ def run(run: Run):
     run.floor('C12.R7', 12)
     from .common import shared_mechanisms as _shared
     _shared(run, 'C12', 11, ['stored-values', 'areas', 'addresses', 'no-value-specialisation'])
+    from .common import shared_mechanisms as _shared_f
+    _shared_f(run, 'C12', 15, ['formulas'])
     return INFO
